@@ -27,12 +27,14 @@ _ext_enabled = True
 @contextmanager
 def disable_extensions():
     """Disable quanto extensions (debug)"""
+    global _ext_enabled
+    # (restore the previous value: the extensions must stay disabled when leaving a nested block)
+    ext_enabled = _ext_enabled
     try:
-        global _ext_enabled
         _ext_enabled = False
         yield
     finally:
-        _ext_enabled = True
+        _ext_enabled = ext_enabled
 
 
 def define(name, schema):
